@@ -84,6 +84,27 @@ import PsVerif
 #print axioms PsVerif.dispatch_consistent
 #print axioms PsVerif.zero_sensors_dummy
 #print axioms PsVerif.stale_flag_breaks_invariant
+-- C12
+#print axioms PsVerif.constraintIndices_mem
+#print axioms PsVerif.constraintIndices_sublist
+#print axioms PsVerif.in_out_partition
+#print axioms PsVerif.circle_in_iff
+#print axioms PsVerif.circle_out_iff
+#print axioms PsVerif.cylinderZ_in_iff
+#print axioms PsVerif.parabola_in_iff
+#print axioms PsVerif.ellipse_axis_aligned_in_iff
+#print axioms PsVerif.line_strictly_right
+#print axioms PsVerif.gridPt_spec
+#print axioms PsVerif.polygon_rectangle
+-- C13
+#print axioms PsVerif.box_order
+#print axioms PsVerif.transposeIdx_involutive
+#print axioms PsVerif.box_set
+#print axioms PsVerif.dfBox_mem
+#print axioms PsVerif.ravel_unravel
+#print axioms PsVerif.unravel_ravel
+#print axioms PsVerif.module_name_spec
+#print axioms PsVerif.module_name_old_wrong
 -- C14
 #print axioms PsVerif.selected_eq_take
 #print axioms PsVerif.setN_preserves_ranking
